@@ -79,4 +79,9 @@ structure CBuf where
   buffer_ : List UInt8
   context_ : Int
 
+/-- `np.ndindex(*dims)`: all index tuples in C order -/
+def ndindex : List Int → List (List Int)
+ | [] => [[]]
+ | d :: ds => (List.range d.toNat).flatMap fun (i : Nat) => (ndindex ds).map ((i : Int) :: ·)
+
 end Py
